@@ -1,5 +1,6 @@
 import Ledger.Proofs.CtrlIk
 import Ledger.Proofs.CtrlRetry
+import Ledger.Ctrl.Request
 import Ledger.Proofs.CtrlExamples
 
 /-!
@@ -35,6 +36,35 @@ theorem ik_different_input_validation_error (strict : Bool) (s : State) (op : Op
     (hk : op.ik ≠ "") (hf : readLogWithIK op.ik s.db = some l) (h1 : l.ihash ≠ "") (h2 : l.ihash ≠ op.ihash) :
     step strict s op = (s, { err := some .invalidIdempotencyInput }) :=
   step_ik_mismatch strict s op l hk hf ⟨h1, h2⟩
+
+/-- **Key reuse with a different input is refused, whatever field differs.**  Let `H` be
+    the fingerprint of requests (`ComputeIdempotencyHash` = base64(SHA-256(`json.Marshal`
+    of the input))), the log found under the key carry `H r0` (it does: `ik_recorded`) and
+    the re-sent request `r` carry `H r`.  ASSUMED about `H`, and nothing else: it is
+    injective on requests — i.e. the JSON encoding of the input distinguishes every two
+    values of `Request` (every field of every write kind takes part: script, template,
+    each variable, timestamp, metadata, reference, account metadata, runtime; force,
+    atEffectiveDate, id; address / key / value; version, schema data) and SHA-256 does not
+    collide on them — and never the empty string.  Then `r ≠ r0` ⇒ validation error,
+    nothing at all changes.  (A `MarshalJSON` that drops a field from the encoding breaks
+    exactly the injectivity hypothesis; the `ctrlhist` workload re-sends every request with
+    exactly one field changed and checks the real answer.) -/
+theorem ik_hash_injective_on_inputs (H : Request → String) (hinj : ∀ a b, H a = H b → a = b)
+    (hne0 : ∀ a, H a ≠ "") (strict : Bool) (s : State) (op : Op) (l : Log) (r r0 : Request)
+    (hk : op.ik ≠ "") (hf : readLogWithIK op.ik s.db = some l)
+    (h0 : l.ihash = H r0) (h1 : op.ihash = H r) (hdiff : r ≠ r0) :
+    step strict s op = (s, { err := some .invalidIdempotencyInput }) := by
+  refine ik_different_input_validation_error strict s op l hk hf (by rw [h0]; exact hne0 r0) ?_
+  rw [h0, h1]
+  exact fun h => hdiff (hinj _ _ h).symm
+
+/-- …and the same request under the same key gets the recorded outcome: the original
+    log as a hit, nothing changes (needs only that `H` is a function of the request). -/
+theorem ik_same_input_recorded_outcome (H : Request → String) (strict : Bool) (s : State) (op : Op) (l : Log)
+    (r : Request) (hk : op.ik ≠ "") (hf : readLogWithIK op.ik s.db = some l)
+    (h0 : l.ihash = H r) (h1 : op.ihash = H r) :
+    step strict s op = (s, { hit := true, log := some l }) :=
+  ik_hit_returns_original strict s op l hk hf (Or.inr (by rw [h0, h1]))
 
 /-- A committed write with a key records the key and the input's hash in its log,
     so every later request with that key meets the two theorems above. -/
